@@ -14,7 +14,7 @@ import (
 func init() {
 	register(&propDef{
 		id:      "C34",
-		explain: "Structural necessary conditions of 'a body stream handed to a Request/Response is closed exactly once, whatever happens': (R1) each closer (closeBodyStream of Request and Response) clears the bodyStream reference on every path on which it closed the stream, including when Close reports an error - otherwise the next Reset closes it again; (R2) every other store to a bodyStream field either derives from the field's previous value (wrapping / swapping, which transfers ownership) or is dominated by a call of the object's closer (ResetBody / closeBodyStream), or happens in a read path that fills a freshly reset object; (R3) every path through the stream writers of Request and Response reaches the closer; (R4) the shared close helper invokes Close and CloseWithError at most once each. (R-pool) the reader of streamed bodies (requestStream) is pooled: every field of its decoding position is assigned on every path of its release or of its acquire function, so a stream abandoned in the middle of a chunk does not pass its chunk count to the next body. Not decided: byte equality of what was streamed, chunk encoding.",
+		explain: "Structural necessary conditions of 'a body stream handed to a Request/Response is closed exactly once, whatever happens': (R1) each closer (closeBodyStream of Request and Response) clears the bodyStream reference on every path on which it closed the stream, including when Close reports an error - otherwise the next Reset closes it again; (R2) every other store to a bodyStream field either derives from the field's previous value (wrapping / swapping, which transfers ownership) or is dominated by a call of the object's closer (ResetBody / closeBodyStream), or happens in a read path that fills a freshly reset object; (R3) every path through the stream writers of Request and Response reaches the closer; (R4) the shared close helper invokes Close and CloseWithError at most once each. (R1, shared with C03) the writer of a fixed-length body stream hands every byte to the connection through a bound derived from the remaining declared size, whatever the dynamic type of the stream; (R-pool) the reader of streamed bodies (requestStream) is pooled: every field of its decoding position is assigned on every path of its release or of its acquire function, so a stream abandoned in the middle of a chunk does not pass its chunk count to the next body. Not decided: byte equality of what was streamed, chunk encoding.",
 		run:     runC34,
 	})
 	register(&propDef{
@@ -37,6 +37,8 @@ func runC34(p *Prog, r *Report) {
 	// R-pool: the chunk decoder's position (chunkLeft, chunkedEOF, totalBytesRead, contentLength) lives in a pooled
 	// requestStream; a stream released in the middle of a chunk must not hand that position to the next body
 	pooledHelperRule(p, r, "requestStream")
+	// the bytes of a fixed-length stream that reach the wire are bounded by the declared size (shared with C03.R1)
+	runC03Bounded(p, r)
 	// E8: the once-guard of the compressed stream wrapper. The flag that says "the original stream was closed"
 	// is tested and set by two goroutines (the compressing one and whoever discards the wrapper); the test, the
 	// store and the Close call form one critical section, so every access to the flag holds the wrapper's lock.
